@@ -633,40 +633,41 @@ type dirState struct {
 	consumed  int64
 	msgIdx    int
 	// close bookkeeping of the *writer's* end
-	closeInvoked   bool
-	closeSegMark   int // number of segments that were sure when Close was invoked
-	closeReturned  bool
-	closeReturnAt  time.Duration
-	writerDone     bool
-	readerDone     bool
-	readerEOF      bool
+	closeInvoked  bool
+	closeSegMark  int // number of segments that were sure when Close was invoked
+	closeReturned bool
+	closeReturnAt time.Duration
+	writerDone    bool
+	readerDone    bool
+	readerEOF     bool
 	// reader blocked info (for the hang oracle)
-	rBlockedNeed  int
-	rBlockedSince time.Duration
-	rInCall       bool
-	rCallKind     string
-	rDeadline     time.Time
-	rLastLen      int
-	wDeadline     time.Time
-	closeViaSocket bool // the close notification of this direction's writer went through the socket (queue full)
-	usedShm       bool // some message of this direction travelled through the shared-memory queue
-	usedFallback  bool // ... through the socket
+	rBlockedNeed     int
+	rBlockedSince    time.Duration
+	rInCall          bool
+	rCallKind        string
+	rDeadline        time.Time
+	rLastLen         int
+	wDeadline        time.Time
+	closeViaSocket   bool // the close notification of this direction's writer went through the socket (queue full)
+	usedShm          bool // some message of this direction travelled through the shared-memory queue
+	usedFallback     bool // ... through the socket
+	shmAfterFallback bool // ... through the queue after an earlier one went through the socket
 }
 
 type endState struct {
-	stream        *Stream
-	closeInvoked  bool
-	closeReturned bool
-	closeRetAt    time.Duration
-	sawEOF        bool
-	inCall        [2]int // 0 writer thread, 1 reader thread: >0 while inside a library call
-	g             [2]*simrt.G
-	cbLocal       int
-	cbRemote      int
-	hasCb         bool
-	inOnData      int
-	cbInvocations int
-	cbAfterClose  int
+	stream              *Stream
+	closeInvoked        bool
+	closeReturned       bool
+	closeRetAt          time.Duration
+	sawEOF              bool
+	inCall              [2]int // 0 writer thread, 1 reader thread: >0 while inside a library call
+	g                   [2]*simrt.G
+	cbLocal             int
+	cbRemote            int
+	hasCb               bool
+	inOnData            int
+	cbInvocations       int
+	cbAfterClose        int
 	closedInCallback    bool
 	fallbackBeforeClose bool // some message of this end travelled through the socket before Close was invoked
 	usedFallback        bool
@@ -679,44 +680,44 @@ type pinned struct {
 }
 
 type sessStream struct {
-	idx  int
-	id   uint32
-	plan *streamPlan
-	ends [2]*endState // 0 client, 1 server
-	dirs [2]*dirState // 0 c2s, 1 s2c
-	pins [2][]pinned  // per receiving end: 0 = server end reading c2s ... indexed by dir
-	serverReady chan struct{}
+	idx           int
+	id            uint32
+	plan          *streamPlan
+	ends          [2]*endState // 0 client, 1 server
+	dirs          [2]*dirState // 0 c2s, 1 s2c
+	pins          [2][]pinned  // per receiving end: 0 = server end reading c2s ... indexed by dir
+	serverReady   chan struct{}
 	pinnedAtClose bool
 }
 
 type sessWorld struct {
-	plan     *sessPlan
-	sim      *simrt.Sim
-	own      string
+	plan       *sessPlan
+	sim        *simrt.Sim
+	own        string
 	pm, pc, ps *simrt.Proc
-	dir      string
-	crashKind string
-	cli, srv *Session
-	streams  []*sessStream
-	byID     map[uint32]*sessStream
-	threads  int
-	fin      chan int
-	hogs     [2][]*bufferSlice
-	probes   map[string]int64
-	ops      int64
-	opened   int
+	dir        string
+	crashKind  string
+	cli, srv   *Session
+	streams    []*sessStream
+	byID       map[uint32]*sessStream
+	threads    int
+	fin        chan int
+	hogs       [2][]*bufferSlice
+	probes     map[string]int64
+	ops        int64
+	opened     int
 	// crash bookkeeping (C14)
-	established   bool
-	estStep       int64
-	crashed       bool
-	crashAt       time.Duration
-	thr           []*thread
-	fdC, fdS      int
-	stallEnd      [2]time.Time // per side: end of the last injected process stall
-	acceptorG     *simrt.G
-	sockC         *ssys.Sock
-	tap           [2][]byte
-	hsDone        bool
+	established bool
+	estStep     int64
+	crashed     bool
+	crashAt     time.Duration
+	thr         []*thread
+	fdC, fdS    int
+	stallEnd    [2]time.Time // per side: end of the last injected process stall
+	acceptorG   *simrt.G
+	sockC       *ssys.Sock
+	tap         [2][]byte
+	hsDone      bool
 }
 
 type thread struct {
@@ -742,7 +743,9 @@ func (w *sessWorld) probe(name string) { w.probes[name]++ }
 
 // fail records a violation only when the rule belongs to the property being checked (or the harness
 // itself); an oracle of another property firing is counted, not reported, and does not end the run.
-func (w *sessWorld) fail(rule, format string, args ...interface{}) { w.failTagged(rule, nil, format, args...) }
+func (w *sessWorld) fail(rule, format string, args ...interface{}) {
+	w.failTagged(rule, nil, format, args...)
+}
 
 func (w *sessWorld) failTagged(rule string, tags map[string]string, format string, args ...interface{}) {
 	if w.own == "" || strings.HasPrefix(rule, w.own+".") || strings.HasPrefix(rule, "harness.") {
@@ -816,7 +819,7 @@ func (sessScenario) Run(s *simrt.Sim, plan interface{}, opts map[string]string) 
 
 type lcb struct{ w *sessWorld }
 
-func (l *lcb) OnNewStream(st *Stream) { l.w.serverStream(st) }
+func (l *lcb) OnNewStream(st *Stream)   { l.w.serverStream(st) }
 func (l *lcb) OnShutdown(reason string) {}
 
 // stepHook injects the C14 fault at an exact scheduling step (runs on the scheduler root).
@@ -1354,6 +1357,20 @@ func (w *sessWorld) tagThread(ss *sessStream, dir int) {
 	if (usedFallback && (ss.dirs[dir].usedShm || ss.dirs[dir].closeInvoked)) || (ss.dirs[dir].closeViaSocket && ss.dirs[dir].usedShm) {
 		simrt.SetTag("transport_switch", "yes")
 	}
+	if w.fallbackFlagCleared(ss, dir) {
+		simrt.SetTag("fallback_flag_cleared", "yes")
+	}
+}
+
+// fallbackFlagCleared: the writer of this direction sent data through the socket and its sticky fallback flag is
+// off again (or it went back to the queue). The library never does that on a stream that is not pooled ("once we
+// send data using uds, for this stream we will always use uds later to avoid unordering"); known finding F-ORDER is
+// about the orderings that remain *with* that rule, so a verdict with this tag is not an instance of it.
+func (w *sessWorld) fallbackFlagCleared(ss *sessStream, dir int) bool {
+	wend, _ := endsOf(dir)
+	d := ss.dirs[dir]
+	we := ss.ends[wend]
+	return d.shmAfterFallback || (d.usedFallback && we.stream != nil && !we.stream.inFallbackState)
 }
 
 func (w *sessWorld) isClosedErr(err error) bool {
@@ -1495,6 +1512,9 @@ func (w *sessWorld) writer(ss *sessStream, dir int) {
 					es.usedFallback = true
 					d.usedFallback = true
 				} else {
+					if d.usedFallback {
+						d.shmAfterFallback = true
+					}
 					d.usedShm = true
 				}
 				if d.usedFallback && d.usedShm {
@@ -1596,10 +1616,10 @@ func (w *sessWorld) readOp(ss *sessStream, dir int, op rOp) (stop bool) {
 	}
 	es.inCall[1]++
 	var (
-		got  []byte
-		cnt  int
-		err  error
-		zc   bool // zero-copy result that must stay valid until release
+		got []byte
+		cnt int
+		err error
+		zc  bool // zero-copy result that must stay valid until release
 	)
 	switch op.K {
 	case "rb":
@@ -1752,6 +1772,9 @@ func (w *sessWorld) ctxTags(ss *sessStream, dir int) map[string]string {
 	usedFallback := d.usedFallback || (we.stream != nil && we.stream.inFallbackState)
 	if (usedFallback && (d.usedShm || d.closeInvoked)) || (d.closeViaSocket && d.usedShm) {
 		tags["transport_switch"] = "yes" // messages (or the close) of this direction travelled through both the queue and the socket
+	}
+	if w.fallbackFlagCleared(ss, dir) {
+		tags["fallback_flag_cleared"] = "yes"
 	}
 	if re.closeInvoked {
 		tags["local_close"] = "yes" // the reading end itself had Close invoked before the failing operation finished
